@@ -4,7 +4,7 @@
    notes/C16.fix-1.diff + fix-2.diff.  Full-strength statements are proved for [repaired]; for [pinned] the same
    statements are refuted by witness and proved under exactly the guard that excludes the failing class. *)
 From Coq Require Import ZArith List Bool.
-From BNP Require Import Base.Prims Model.C16 Proofs.C16 Corr.C16 Proofs.C16_link Proofs.C16_depth Gen.C16 Bridge.C16.
+From BNP Require Import Base.Prims Model.C16 Proofs.C16 Corr.C16 Proofs.C16_link Proofs.C16_depth Proofs.C16_r6 Gen.C16 Bridge.C16.
 Import ListNotations.
 Open Scope Z_scope.
 
@@ -434,3 +434,154 @@ Proof.
     + split; [reflexivity|]. split; [apply Forall_forall; intros i H; apply Hi; right; exact H|].
       split; [intros _; vm_compute; reflexivity|intros H; exfalso; apply H; reflexivity].
 Qed.
+
+(* ===================================================================== round 6 *)
+(* Auxiliary (TAG) area.  bionumpy has no code that interprets auxiliary fields (types A c C s S i I f Z H B): they
+   are the bytes behind the qualities up to the end of the block.  For every valid record and EVERY auxiliary area t
+   (any bytes, any length the block size can hold): the nine fields and the reference interval of the record with t
+   are those of the record with its own area (in particular with none: t = [] or b_tags r = []), wherever the two
+   lie in their buffers, and the bytes behind the qualities are t itself.  (Carried unchanged through
+   read -> select -> write -> re-read: last clause of C16_write_then_reread.) *)
+Theorem C16_tags_do_not_change_fields :
+  forall pre post pre' post' r t names, rec_valid 65536 r -> fits (with_tags r t) ->
+    decode_at repaired names (pre ++ encode_rec (with_tags r t) ++ post) (len pre)
+    = decode_at repaired names (pre' ++ encode_rec r ++ post') (len pre')
+    /\ interval_at repaired names (pre ++ encode_rec (with_tags r t) ++ post) (len pre)
+       = interval_at repaired names (pre' ++ encode_rec r ++ post') (len pre')
+    /\ tags_region repaired (pre ++ encode_rec (with_tags r t) ++ post) (len pre)
+         (len pre + len (encode_rec (with_tags r t))) = t.
+Proof. exact tags_irrelevant. Qed.
+Print Assumptions C16_tags_do_not_change_fields.
+
+(* the block_size chain steps over the auxiliary area whatever its length: a record with area t is len t bytes longer
+   than the same record without one, and the chain step taken at its start lands exactly behind the area *)
+Theorem C16_block_chain_skips_tags :
+  forall pre post r t, fits (with_tags r t) ->
+    len (encode_rec (with_tags r t)) = len (encode_rec (with_tags r [])) + len t
+    /\ find_next (pre ++ encode_rec (with_tags r t) ++ post) (len pre)
+       = len pre + len (encode_rec (with_tags r [])) + len t.
+Proof. exact (fun pre post r t Hf => conj (len_with_tags r t) (chain_skips_tags pre post r t Hf)). Qed.
+Print Assumptions C16_block_chain_skips_tags.
+
+(* Files of several gzip members (BGZF blocks).  The gzip layer is external code; [raw_read] / [buffered_read] model
+   CPython's _GzipReader.read under io.BufferedReader.read (assumption A-GZIP made explicit).  For EVERY list of
+   members (every split of the byte stream, empty members anywhere): file.read(n) returns exactly the next n bytes
+   of the concatenated payloads and leaves the rest, and the chunk reader working through such reads computes
+   exactly what the reader on the concatenated stream computes (any fuel, any carried tail, any k). *)
+Theorem C16_gzip_members_read :
+  forall ms,
+    (forall n, exists ms', stream_read n ms = Some (firstn (Z.to_nat n) (concat ms), ms')
+                           /\ concat ms' = skipn (Z.to_nat n) (concat ms))
+    /\ (forall fuel k prepend,
+          read_chunks_members_fuel fuel k ms prepend = read_chunks_fuel fuel k (concat ms) prepend)
+    /\ (forall k, read_chunks_members k ms = read_chunks k (concat ms)).
+Proof.
+  exact (fun ms => conj (fun n => stream_read_spec n ms)
+                        (conj (fun fuel k prepend => read_chunks_members_eq fuel k ms prepend)
+                              (fun k => read_chunks_members_concat k ms))).
+Qed.
+Print Assumptions C16_gzip_members_read.
+
+(* a valid BAM file stored as ANY sequence of gzip members — records and the header may straddle member borders
+   anywhere, also inside a block_size field: the whole read yields the reference names, the header bytes and the
+   buffer of all records; the header reads consume exactly the header; and for every k >= the largest record the
+   chunk reader then yields whole records only, a partition of the file's records in order *)
+Theorem C16_gzip_members_file :
+  forall ms text refs rs k, header_valid text refs -> Forall fits rs -> 0 < k ->
+    Forall (fun r => len (encode_rec r) <= k) rs ->
+    concat ms = encode_file text refs rs ->
+    read_file (concat ms) = Some (map fst refs, encode_header text refs, buf_of rs)
+    /\ exists ms', stream_read (len (encode_header text refs)) ms = Some (encode_header text refs, ms')
+         /\ concat ms' = encode_recs rs
+         /\ exists groups, concat groups = rs /\ Forall (fun g => g <> []) groups
+              /\ read_chunks_members k ms' = Some (map buf_of groups).
+Proof. exact members_file. Qed.
+Print Assumptions C16_gzip_members_file.
+
+(* non-vacuity, auxiliary area: the unmapped record of ex_recs (area NM:C:1) with an area holding a Z, an i and a
+   B:s field is valid; it decodes like the record without any area, its block is 25 bytes longer, and the chain
+   step at its start lands behind the area *)
+Definition ex_aux : list Z :=
+  [88; 83; 90; 97; 98; 0] ++ [88; 65; 105; 10; 0; 0; 0] ++ [90; 90; 66; 115; 2; 0; 0; 0; 1; 0; 255; 255].
+Definition ex_unm : brec :=
+  {| b_ref := -1; b_pos := -1; b_mapq := 0; b_bin := 4680; b_flag := 4; b_name := [117; 110; 109];
+     b_cigar := []; b_seq := [1; 2; 4; 8]; b_qual := [0; 0; 0; 0];
+     b_nref := -1; b_npos := -1; b_tlen := 0; b_tags := [78; 77; 67; 1] |}.
+Example C16_tags_nonvacuous :
+  let r := ex_unm in
+  rec_okb 2 (with_tags r ex_aux) = true
+  /\ len ex_aux = 25
+  /\ orec_eqb (decode_at repaired [[99; 49]; [99; 50]] ([7; 7] ++ encode_rec (with_tags r ex_aux) ++ [9]) 2)
+              (decode_at repaired [[99; 49]; [99; 50]] (encode_rec (with_tags r [])) 0) = true
+  /\ find_next ([7; 7] ++ encode_rec (with_tags r ex_aux) ++ [9]) 2 = 2 + len (encode_rec (with_tags r [])) + 25
+  /\ tags_region repaired ([7; 7] ++ encode_rec (with_tags r ex_aux) ++ [9]) 2 (2 + len (encode_rec (with_tags r ex_aux))) = ex_aux.
+Proof. vm_compute. repeat split. Qed.
+
+(* non-vacuity, members: the file of C16_nonvacuous cut into 9 members — a border inside the magic, an empty member,
+   a border 2 bytes into the first record's block_size, an EOF-like empty member in the middle, one on a record
+   border, one-byte members, an empty member at the end.  The members concatenate to the file; the header read
+   consumes exactly the header; chunks of 74 bytes (the largest record) give 1 + 1 + 1 records; equal to the reader on
+   the concatenated stream *)
+Definition ex_file : list Z := encode_file [64; 72; 68; 10] ex_refs ex_recs.
+Definition cut (bounds : list Z) (l : list Z) : list (list Z) :=
+  (fix go (bs : list Z) (p : Z) : list (list Z) :=
+     match bs with [] => [slice p (len l) l] | b :: r => slice p b l :: go r b end) bounds 0.
+Definition ex_members : list (list Z) := cut [2; 2; 40; 40; 97; 98; 99; 147; 221; 221] ex_file.
+Example C16_members_nonvacuous :
+  zlist_eqb (concat ex_members) ex_file = true
+  /\ map (fun m => len m) ex_members = [2; 0; 38; 0; 57; 1; 1; 48; 74; 0; 0]
+  /\ len (encode_header [64; 72; 68; 10] ex_refs) = 38
+  /\ (match stream_read 38 ex_members with
+      | Some (hdr, ms') =>
+          zlist_eqb hdr (encode_header [64; 72; 68; 10] ex_refs)
+          && match read_chunks_members 74 ms', read_chunks 74 (encode_recs ex_recs) with
+             | Some bs, Some bs' => zlist_eqb (map (fun c => len (bf_starts c)) bs) [1; 1; 1]
+                                    && all2 (rec_matches ex_refs) ex_recs (flat_map (decode_buf repaired (map fst ex_refs)) bs)
+                                    && all2 (fun a b => zlist_eqb (bf_data a) (bf_data b)) bs bs'
+             | _, _ => false
+             end
+      | None => false
+      end) = true.
+Proof. vm_compute. repeat split. Qed.
+
+(* non-vacuity, records at the limits: read name of 254 characters (l_read_name 255), 65535 CIGAR operations, odd
+   l_seq, position 2^31-1, all 12 flag bits, refID -1 with a mapped mate, tlen -2^31; and a record with no CIGAR, no
+   sequence, position -1, negative next_refID / next_pos.  Both are valid, decode to their spec values, and the
+   second lies where the block chain says *)
+Definition ex_limit : list brec :=
+  [ {| b_ref := -1; b_pos := 2147483647; b_mapq := 255; b_bin := 65535; b_flag := 4095 - 8; b_name := repeat 110 (Z.to_nat 254);
+       b_cigar := concat (repeat [(4, 1); (1, 2); (5, 3)] (Z.to_nat 21845)); b_seq := [1; 2; 4; 8; 15]; b_qual := [0; 93; 10; 255; 1];
+       b_nref := 1; b_npos := 2147483647; b_tlen := -2147483648; b_tags := ex_aux |};
+    {| b_ref := 1; b_pos := -1; b_mapq := 0; b_bin := 0; b_flag := 2048; b_name := [120];
+       b_cigar := []; b_seq := []; b_qual := [];
+       b_nref := -1; b_npos := -1; b_tlen := -1; b_tags := [] |} ].
+Example C16_limits_nonvacuous :
+  forallb (rec_okb 2) ex_limit = true
+  /\ map (fun r => (len (b_name r) + 1, len (b_cigar r))) ex_limit = [(255, 65535); (2, 0)]
+  /\ all2 (rec_matches ex_refs) ex_limit (decode_buf repaired (map fst ex_refs) (buf_of ex_limit)) = true
+  /\ all2 (iv_matches ex_refs) ex_limit (intervals_buf repaired (map fst ex_refs) (buf_of ex_limit)) = true
+  /\ option_map (fun b => zlist_eqb (bf_starts b) (bf_starts (buf_of ex_limit))) (from_raw_buffer (encode_recs ex_limit ++ [10]))
+     = Some true.
+Proof. vm_compute. repeat split. Qed.
+
+(* any SEQUENCE of reads — BamHeader.read_header issues read(4), read(4), read(l_text), read(4) and per reference
+   read(4), read(1) ... read(1), read(4) — returns the successive pieces of the concatenated payloads, wherever the member
+   borders lie, and leaves exactly the rest: together the reads return the first (n1 + n2 + ...) bytes *)
+Theorem C16_gzip_members_reads_compose :
+  forall ms ns, Forall (fun n => 0 <= n) ns -> sumZ ns <= len (concat ms) ->
+    exists ms', stream_reads ns ms = Some (pieces ns (concat ms), ms')
+      /\ concat (pieces ns (concat ms)) = firstn (Z.to_nat (sumZ ns)) (concat ms)
+      /\ concat ms' = skipn (Z.to_nat (sumZ ns)) (concat ms).
+Proof. exact stream_reads_compose. Qed.
+Print Assumptions C16_gzip_members_reads_compose.
+
+(* non-vacuity: the header of the example file read as read(4), read(4), read(4 = l_text), read(4), then the first
+   reference as read(4), read(1) x3, read(4) over the 11 members of ex_members *)
+Example C16_reads_nonvacuous :
+  match stream_reads [4; 4; 4; 4; 4; 1; 1; 1; 4] ex_members with
+  | Some (ds, ms') => zlist_eqb (nth 0 ds []) bam_magic && zlist_eqb (nth 2 ds []) [64; 72; 68; 10]
+                      && zlist_eqb (nth 5 ds [] ++ nth 6 ds []) [99; 49] && zlist_eqb (nth 7 ds []) [0]
+                      && zlist_eqb (concat ds ++ concat ms') ex_file
+  | None => false
+  end = true.
+Proof. vm_compute. reflexivity. Qed.
